@@ -1,6 +1,6 @@
 (** C17 — property theorems only.  Each is closed by [exact] of a lemma in Proofs.v and followed by
     [Print Assumptions]. *)
-From V Require Import Base.Util C17.Sites C17.Model C17.Proofs.
+From V Require Import Base.Util C17.Sites C17.Model C17.Spec C17.Proofs.
 From V Require Gen.C17_sites_gen.
 From Coq Require Import Permutation Sorting.Sorted.
 
@@ -90,3 +90,16 @@ Theorem C17_extension_list_sorted : forall elem l t,
   StronglySorted (fun a b => pos_leb (d_pos (fst a)) (d_pos (fst b)) = true) t.
 Proof. exact into_original_and_extensions_sorted. Qed.
 Print Assumptions C17_extension_list_sorted.
+
+(** the verdict of the resolver (resolves / duplicate original / extension without original) is a function of
+    the multiset of definitions, hence invariant under any reordering inside or across files *)
+Theorem C17_resolve_verdict : forall its,
+  vclass (resolve_schema_extensions its) = expected_class its.
+Proof. exact resolve_verdict. Qed.
+Print Assumptions C17_resolve_verdict.
+
+Theorem C17_resolve_verdict_permutation : forall its its',
+  Permutation its its' ->
+  vclass (resolve_schema_extensions its) = vclass (resolve_schema_extensions its').
+Proof. exact resolve_verdict_permutation. Qed.
+Print Assumptions C17_resolve_verdict_permutation.
